@@ -654,6 +654,16 @@ func (c *Ctx) havocWrites(st *State, ws *WriteSet) {
 		}
 		st.Heap[hr.Leaf] = Store(h, hr.Ref, Fresh("havoc."+hr.Leaf, hr.Sort))
 	}
+	keys = keys[:0]
+	for k := range ws.WholeHeap {
+		keys = append(keys, k)
+	}
+	sort.Strings(keys)
+	for _, k := range keys {
+		if h := st.Heap[k]; h != nil {
+			st.Heap[k] = Fresh("havoc.whole."+k, h.Sort)
+		}
+	}
 	for g := range ws.Ghosts {
 		if v, ok := st.Ghost[g]; ok {
 			st.Ghost[g] = c.havocGhost(st, g, v)
@@ -682,9 +692,13 @@ func (c *Ctx) havocGhost(st *State, g string, v Value) Value {
 func (c *Ctx) discoverWrites(st *State, fr *Frame, loop *Loop, phis []*ssa.Phi) *WriteSet {
 	acc := newWriteSet()
 	acc.MaxID = c.nobj
+	freshStart := TS.fresh
+	nameStart := globalFresh
 	for round := 0; round < 4; round++ {
 		probe := st.clone()
 		probe.Disc = newWriteSet()
+		probe.Disc.FreshStart = freshStart
+		probe.Disc.NameStart = nameStart
 		probe.Record = nil
 		pfr := probe.top()
 		c.havocPhis(probe, pfr, phis)
@@ -692,7 +706,7 @@ func (c *Ctx) discoverWrites(st *State, fr *Frame, loop *Loop, phis []*ssa.Phi) 
 		// run until every path leaves the loop or reaches the back edge
 		depth := len(probe.Frames)
 		c.runDiscovery(probe, loop, depth)
-		n0 := len(acc.ObjPaths) + len(acc.HeapRefs) + len(acc.Ghosts)
+		n0 := len(acc.ObjPaths) + len(acc.HeapRefs) + len(acc.Ghosts) + len(acc.WholeHeap)
 		for k, v := range probe.Disc.ObjPaths {
 			// only objects that existed before the loop matter
 			if _, ok := st.Mem[v.Obj]; ok {
@@ -705,7 +719,10 @@ func (c *Ctx) discoverWrites(st *State, fr *Frame, loop *Loop, phis []*ssa.Phi) 
 		for k := range probe.Disc.Ghosts {
 			acc.Ghosts[k] = true
 		}
-		if len(acc.ObjPaths)+len(acc.HeapRefs)+len(acc.Ghosts) == n0 {
+		for k := range probe.Disc.WholeHeap {
+			acc.WholeHeap[k] = true
+		}
+		if len(acc.ObjPaths)+len(acc.HeapRefs)+len(acc.Ghosts)+len(acc.WholeHeap) == n0 {
 			break
 		}
 	}
